@@ -32,6 +32,8 @@ CBMC_BASE = [
     "--div-by-zero-check",
 ]
 CBMC_MEM = ["--pointer-check", "--bounds-check"]
+# variant "str": std::basic_string<char> is instantiated from the headers (no extern template), so that std::string has IR
+VARIANT_FLAGS = {"str": ["-D_GLIBCXX_EXTERN_TEMPLATE=0", "-DVP_STRVARIANT=1"]}
 
 TOTAL_MEM_GB = int(os.environ.get("VP_TOTAL_MEM_GB", "52"))
 NCPU = int(os.environ.get("VP_JOBS", str(os.cpu_count() or 8)))
@@ -125,10 +127,11 @@ class Ctx:
             inc = ["-I" + os.path.join(REPO, "include"), "-I" + RT]
             if variant == "mapmodel":
                 inc = ["-I" + os.path.join(RT, "stubinc")] + inc
+            vflags = VARIANT_FLAGS.get(variant, [])
 
             def comp(src):
                 out = os.path.join(d, src.replace(".cpp", ".bc"))
-                r = sh(["clang++-14"] + CLANG_FLAGS + inc + ["-c", "-emit-llvm", os.path.join(REPO, "src", src), "-o", out])
+                r = sh(["clang++-14"] + CLANG_FLAGS + vflags + inc + ["-c", "-emit-llvm", os.path.join(REPO, "src", src), "-o", out])
                 if r.returncode != 0:
                     raise RuntimeError("clang failed on %s:\n%s" % (src, r.stderr[-3000:]))
                 return out
@@ -136,7 +139,7 @@ class Ctx:
             with cf.ThreadPoolExecutor(NCPU) as ex:
                 bcs = list(ex.map(comp, srcs))
             mo = os.path.join(d, "models.bc")
-            r = sh(["clang++-14"] + CLANG_FLAGS + ["-fno-builtin"] + inc + ["-c", "-emit-llvm", os.path.join(RT, "models.cpp"), "-o", mo])
+            r = sh(["clang++-14"] + CLANG_FLAGS + vflags + ["-fno-builtin"] + inc + ["-c", "-emit-llvm", os.path.join(RT, "models.cpp"), "-o", mo])
             if r.returncode != 0:
                 raise RuntimeError("clang failed on models.cpp:\n" + r.stderr[-3000:])
             lib = os.path.join(d, "lib.bc")
@@ -175,7 +178,7 @@ class Ctx:
                 inc = ["-I" + os.path.join(RT, "stubinc")] + inc
             defs = ["-D%s=%s" % kv for kv in sorted(job.defs.items())]
             hb = os.path.join(d, "h.bc")
-            r = sh(["clang++-14"] + CLANG_FLAGS + inc + defs + ["-c", "-emit-llvm", os.path.join(HARNESS, job.harness), "-o", hb])
+            r = sh(["clang++-14"] + CLANG_FLAGS + VARIANT_FLAGS.get(job.variant, []) + inc + defs + ["-c", "-emit-llvm", os.path.join(HARNESS, job.harness), "-o", hb])
             if r.returncode != 0:
                 raise RuntimeError("clang failed on harness %s %s:\n%s" % (job.harness, defs, r.stderr[-4000:]))
             mod = os.path.join(d, "m.bc")
